@@ -46,6 +46,31 @@ pub mod io {
     pub trait BufRead { }
     /// std::io::copy: streams a reader into a writer.  WEAK ASSUMED CONTRACT: nothing is said
     /// about what reaches the file system (the reader/writer types are not modelled), so no
+    pub enum SeekFrom { Start(u64), End(i64), Current(i64) }
+    /// std::io::BufWriter: WEAK - what has reached the inner writer at any moment is unspecified
+    /// (writes are buffered, `flush` pushes them out, a failed flush at drop is silent): every
+    /// operation on it may have written anything to the file system that the frame allows
+    #[verifier::external_body]
+    #[verifier::reject_recursive_types(W)]
+    pub struct BufWriter<W> { w: W }
+    impl<W> BufWriter<W> {
+        #[verifier::external_body]
+        pub fn new(inner: W) -> (r: BufWriter<W>) { unimplemented!() }
+        #[verifier::external_body]
+        pub fn with_capacity(n: usize, inner: W) -> (r: BufWriter<W>) { unimplemented!() }
+        #[verifier::external_body]
+        pub fn write_all(&mut self, buf: &[u8], Tracked(w): Tracked<&mut crate::spec::World>) -> (r: Result<()>)
+            ensures crate::spec::hist_ext(*old(w), *final(w)), final(w).healthy == old(w).healthy, crate::spec::world_wf(*old(w)) ==> crate::spec::world_wf(*final(w))
+        { unimplemented!() }
+        #[verifier::external_body]
+        pub fn write(&mut self, buf: &[u8], Tracked(w): Tracked<&mut crate::spec::World>) -> (r: Result<usize>)
+            ensures crate::spec::hist_ext(*old(w), *final(w)), final(w).healthy == old(w).healthy, crate::spec::world_wf(*old(w)) ==> crate::spec::world_wf(*final(w))
+        { unimplemented!() }
+        #[verifier::external_body]
+        pub fn flush(&mut self, Tracked(w): Tracked<&mut crate::spec::World>) -> (r: Result<()>)
+            ensures crate::spec::hist_ext(*old(w), *final(w)), final(w).healthy == old(w).healthy, crate::spec::world_wf(*old(w)) ==> crate::spec::world_wf(*final(w))
+        { unimplemented!() }
+    }
     /// frame or content fact survives a call — a unit that relies on one cannot be proved.
     #[verifier::external_body]
     pub fn copy<R, W>(reader: &mut R, writer: &mut W, Tracked(w): Tracked<&mut crate::spec::World>) -> (r: Result<u64>)
@@ -196,6 +221,14 @@ pub mod fs {
                     && r->Ok_0@.path == resolve(old(w).fs, p.pathv()) && r->Ok_0@.pos == 0
                     && r->Ok_0@.mode == (OpenMode { read: false, write: true, append: false, create: true, truncate: true }),
         { unimplemented!() }
+        /// fchmod(2): the model has no permission bits, nothing changes
+        #[verifier::external_body]
+        pub fn set_permissions(&self, perm: Permissions) -> (r: io::Result<()>) { unimplemented!() }
+        /// lseek(2): only the offset changes (to where is not specified here)
+        #[verifier::external_body]
+        pub fn seek(&mut self, pos: io::SeekFrom) -> (r: io::Result<u64>)
+            ensures final(self)@.path == old(self)@.path, final(self)@.mode == old(self)@.mode, final(self)@.content == old(self)@.content
+        { unimplemented!() }
         /// fstat(2)
         #[verifier::external_body]
         pub fn metadata(&self, Tracked(w): Tracked<&World>) -> (r: io::Result<Metadata>) { unimplemented!() }
@@ -230,7 +263,17 @@ pub mod fs {
     { unimplemented!() }
     #[verifier::external_body]
     pub struct Metadata { m: u8 }
+    #[verifier::external_body]
+    pub struct Permissions { p: u8 }
+    impl Permissions {
+        #[verifier::external_body]
+        pub fn readonly(&self) -> bool { unimplemented!() }
+        #[verifier::external_body]
+        pub fn set_readonly(&mut self, b: bool) { unimplemented!() }
+    }
     impl Metadata {
+        #[verifier::external_body]
+        pub fn permissions(&self) -> (r: Permissions) { unimplemented!() }
         pub uninterp spec fn spec_len(&self) -> nat;
         #[verifier::external_body]
         pub fn len(&self) -> (r: u64) ensures r == self.spec_len() { unimplemented!() }
